@@ -622,7 +622,11 @@ public:          // need to be public due to CRTP
                   GetModel().num_common_exprs(),
                   -1);          // init by -1, "no variable"
     }
+    if (-2 == common_exprs_[index])               // being converted now
+      MP_RAISE(fmt::format(
+                 "Defined variable {} refers to itself", index+1));
     if (common_exprs_[index]<0) {                 // not yet converted
+      common_exprs_[index] = -2;                  // mark: in conversion
       auto ce = MP_DISPATCH( GetModel() ).common_expr(index);
       EExpr eexpr( ToLinTerms(ce.linear_expr()) );
       if (ce.nonlinear_expr())
